@@ -383,7 +383,7 @@ func classifyMismatch(want *ttModelEntry, got ttObs) string {
 func GenTT(seed uint64) *Scenario {
 	rng := NewPRNG(seed, "tt")
 	sc := &Scenario{Prop: "C11", Kind: "tt", Seed: seed, Checks: []string{"c11"}, Cost: CostModel{Every: 1, BaseNs: 1000}}
-	sizes := []int{1, 2, 3, 5, 64}
+	sizes := []int{0, 1, 2, 3, 5, 64} // 0: a table without entries (the announced minimum of the Hash option)
 	sc.TT = &TTSpec{SizeMB: sizes[rng.Intn(len(sizes)-1)]}
 	if rng.Intn(20) == 0 {
 		sc.TT.SizeMB = 64
